@@ -267,6 +267,12 @@ def run_groups(prop, groups, tier, workdir, only_harness=None):
         except Exception as ex:  # never turn a violation into a crash
             e["counterexample"] = None
             e["replay_note"] = "concrete playback failed: %s" % ex
+    if alt:
+        # scratch-tree runs build into their own target directories (GBs each): remove them as soon as the verdict is in
+        import glob
+        import shutil
+        for d in glob.glob(os.path.join(workdir, "target-*")):
+            shutil.rmtree(d, ignore_errors=True)
     return {"infra": infra, "failed": failed, "checks": checks, "failed_checks": failed_checks, "solver_s": solver_s,
             "harnesses": harness_ev, "cmds": cmds, "samples": samples}
 
